@@ -121,6 +121,33 @@ def run(ctx):
                 for f in sub:
                     if res.get(f) != rt.digest(f, data):
                         fails.append({"what": f"multiple_format_hash_file({size} bytes, {sub})[{f}] = {res.get(f)}, standard digest {rt.digest(f, data)}", "replay": {"entry": "multiple_format_hash_file", "size": size, "fmts": sub, "fmt": f, "seed": ctx.seed}})
+        # ---- every small size 0..300 (the short-input code paths of the xxh family switch at 16/128/240 bytes, the block
+        # sizes of md5/sha1/sha512 are 64/128): single-format and read-once passes, all formats together and every pair
+        pairs = [[a, b] for i, a in enumerate(ALL_FORMATS) for b in ALL_FORMATS[i + 1:]]
+        sp = os.path.join(root, "small.bin")
+        for size in range(0, 301):
+            data = rnd.randbytes(size)
+            with open(sp, "wb") as f:
+                f.write(data)
+            subs = [ALL_FORMATS] + ([pairs[size % len(pairs)], pairs[(size * 7 + 3) % len(pairs)]] if not ctx.thorough else pairs)
+            for sub in subs:
+                evals += 1
+                try:
+                    res = Hh.multiple_format_hash_file(sp, sub)
+                except Exception as e:
+                    res = {"exc": repr(e)}
+                for f in sub:
+                    if res.get(f) != rt.digest(f, data):
+                        fails.append({"what": f"multiple_format_hash_file({size} bytes, {sub})[{f}] = {res.get(f)}, standard digest {rt.digest(f, data)}", "replay": {"entry": "multiple_format_hash_file", "size": size, "fmts": sub, "fmt": f, "data_hex": data.hex()}})
+            for f in ALL_FORMATS:
+                evals += 1
+                try:
+                    got = Hh.hash_file(sp, f)
+                except Exception as e:
+                    got = repr(e)
+                if got != rt.digest(f, data):
+                    fails.append({"what": f"hash_file({size} bytes, {f}) = {got}, standard digest {rt.digest(f, data)}", "replay": {"entry": "hash_file", "size": size, "fmt": f, "data_hex": data.hex()}})
+        dist["small_sizes"] = "0..300, all formats together + format pairs"
         # ---- streaming use of a hasher object: digests may be taken at any time and never disturb the state
         for fmt in ALL_FORMATS:
             for _ in range(ctx.scale(6, 60)):
@@ -201,21 +228,36 @@ def run(ctx):
         ctx.broken.append(f"model driver does not start: {e}")
 
     class FakeH:
+        """stands in for a hashlib sha512 object whose digest is a chosen 512-bit value (whole hashlib interface, so that
+        the check does not depend on which accessor the encoder uses)"""
+        name = "sha512"
+        digest_size = 64
+        block_size = 128
+
         def __init__(self, hx):
             self.hx = hx
 
         def hexdigest(self):
             return self.hx
 
+        def digest(self):
+            return bytes.fromhex(self.hx)
+
         def update(self, b):
             pass
+
+        def copy(self):
+            return FakeH(self.hx)
 
     step = max(1, len(vals) // ctx.scale(400, 4000))  # the model is consulted on a sample, the reference on all
     for i, v in enumerate(vals):
         hx = "%0128x" % v
         c4 = Hh.C4()
         c4.hasher = FakeH(hx)
-        s = c4.string_digest()
+        try:
+            s = c4.string_digest()
+        except Exception as e:
+            s = "exception " + repr(e)
         evals += 1
         dist["c4_values"] += 1
         ref = rt._B58 and ("c4" + _b58(v).rjust(88, "1"))
